@@ -189,7 +189,7 @@ class _ThreadingShim(object):
         # the first two timers may fire at any point; later ones are taken to
         # fire after the horizon of the harness (every commit re-arms the
         # timer, so the execution space would be unbounded otherwise)
-        t.never = len(self.timers) >= 2
+        t.never = len(self.timers) >= getattr(self, "max_timers", 2)
         self.timers.append(t)
         return t
 
@@ -338,6 +338,7 @@ def run_buffered(cfg, prefix):
     outcome = {"problems": [], "obs": []}
     try:
         shim = _ThreadingShim(sch)
+        shim.max_timers = cfg.get("max_timers", 2)
         writing.threading = shim
         st = S.make_sched_ram_storage(sch) if cfg.get("points") == "storage" else None
         if st is None:
@@ -471,7 +472,10 @@ def b_configs(tier):
     out.append({"kind": "buffered", "name": "buffered:limit3:1+1:observer-commits", "limit": 3, "period": None,
                 "keys1": [u"a"], "keys2": [u"b"], "observations": 1, "observer_commits": True})
     out.append({"kind": "buffered", "name": "buffered:limit10:timer", "limit": 10, "period": 5,
-                "keys1": [u"a"], "keys2": [u"b"], "observations": 1})
+                "keys1": [u"a"], "keys2": [], "observations": 1, "max_timers": 1})
+    if tier != "quick":
+        out.append({"kind": "buffered", "name": "buffered:limit10:timer2", "limit": 10, "period": 5,
+                    "keys1": [u"a"], "keys2": [u"b"], "observations": 1, "max_timers": 2})
     return out
 
 
